@@ -160,6 +160,7 @@ def run_verus(unit_path, linemap, info, extra_args=(), timeout=1800):
         clause = None
         props = None
         clause_text = None
+        stub_tags = []
         for lab, cs in labels:
             o = origin_at(linemap, cs["line_start"])
             if o and o[0] == "spec":
@@ -173,6 +174,13 @@ def run_verus(unit_path, linemap, info, extra_args=(), timeout=1800):
                     cands = [c for c in info["clauses"] if c["spec_line"] <= o[2] and c.get("file") == o[1] and (len(o) < 4 or c["fn"] == o[3])]
                     if cands:
                         clause = max(cands, key=lambda c: c["spec_line"])
+                if clause is not None and clause.get("where") == "stub":
+                    # a precondition of an assumed contract failed at a call site: the obligation belongs to the CALLER (its
+                    # properties), plus the properties the failed clause is explicitly tagged with
+                    stub_tags = list(clause["props"])
+                    clause_text = clause["text"]
+                    clause = None
+                    continue
                 if clause is not None and (lab or not props):
                     props = clause["props"]
                     clause_text = clause["text"]
@@ -190,6 +198,8 @@ def run_verus(unit_path, linemap, info, extra_args=(), timeout=1800):
                     props = f["props"]
             if props is None:
                 props = list(info.get("default_props", []))
+        if stub_tags:
+            props = list(props) + [t for t in stub_tags if t not in props]
         expr_text = ""
         if prim:
             ls, le = prim["line_start"], prim["line_end"]
